@@ -5,7 +5,7 @@ import HcModel.Drv.Util
      table := comma-separated  <hex header>=<n | x>   (what net/http's parser says about that header: content length, or x = error /
               unknown length); headers not in the table count as x
      ev    := r <hex bytes>   one raw read        |   w   a response is written
-  Answer: one token per event — ok | refused (and `closed` for every event after a refusal) — then ` | hdr=<n> body=<n> <inBody> <complete>`
+  Answer: one token per event — ok | refused (silently) | refused-answered (an HTTP error response was written first) (and `closed` for every event after a refusal) — then ` | hdr=<n> body=<n> <inBody> <complete>`
 -/
 namespace Hc.Drv.PlainFraming
 open Hc Hc.PlainFraming
@@ -54,7 +54,7 @@ def handle : List String → String
             match e with
             | .read b =>
               match feed cl m s b with
-              | none => (none, acc.2 ++ ["refused"])
+              | none => (none, acc.2 ++ [if refusal cl m s b == some true then "refused-answered" else "refused"])
               | some s' => (some s', acc.2 ++ ["ok"])
             | .respond => (some (respond s), acc.2 ++ ["ok"])
             | .interim => (some (interim true s), acc.2 ++ ["ok"])) (some PlainFraming.init, [])
